@@ -11,9 +11,11 @@ import (
 
 type attachOp struct {
 	Receipt bool
+	Trace   bool
 	BH, Tx  uint64
 	TH      uint64
 	Logs    []cachesim.DLog
+	Traces  []uint64
 }
 
 func ethLog(l cachesim.DLog) *eth.Log {
@@ -52,7 +54,25 @@ func applyReceipt(b *eth.Block, op attachOp) {
 	b.Unlock()
 }
 
+// what traces() does for the traces of one transaction of a trace_block reply
+func applyTraces(b *eth.Block, op attachOp) {
+	b.Lock()
+	b.Header.Hash.Write(cachesim.Hash32(op.BH))
+	tx := b.Tx(op.Tx)
+	tx.PrecompHash.Write(cachesim.Hash32(op.TH))
+	tas := make([]eth.TraceAction, len(op.Traces))
+	for i, body := range op.Traces {
+		tas[i] = eth.TraceAction{Idx: uint64(i), From: cachesim.Addr20(body), To: cachesim.Addr20(body + 1), CallType: "call"}
+		tas[i].Value.SetUint64(body)
+	}
+	tx.TraceActions = tas
+	b.Unlock()
+}
+
 func coqAop(op attachOp) string {
+	if op.Trace {
+		return fmt.Sprintf("ATraces %d %d %d %s", op.BH, op.Tx, op.TH, cachesim.CoqNs(op.Traces))
+	}
 	if op.Receipt {
 		return fmt.Sprintf("AReceipt %d %d %d 1 %s", op.BH, op.Tx, op.TH, cachesim.CoqLogs(op.Logs))
 	}
@@ -90,11 +110,23 @@ func genAttach(seed uint64) lib.Case {
 	ops := make([]attachOp, nops)
 	attached := map[uint64]map[uint64]int{} // tx -> log idx -> times attached
 	receiptSeen := map[uint64]bool{}
+	lastTraces := map[uint64][]uint64{}
+	traced := map[uint64]bool{}
 	repeated := false
 	for i := range ops {
 		tx := uint64(r.Intn(ntx))
 		op := attachOp{BH: 900, Tx: tx, TH: 300 + tx}
-		if r.Chance(1, 5) {
+		if r.Chance(1, 6) {
+			op.Trace = true
+			for a := r.Range(0, 3); a > 0; a-- {
+				op.Traces = append(op.Traces, 7000+100*tx+uint64(2*a))
+			}
+			if hostile && r.Chance(1, 2) {
+				op.Traces = append(op.Traces, uint64(9000+r.Intn(50)))
+			}
+			lastTraces[tx] = op.Traces
+			traced[tx] = true
+		} else if r.Chance(1, 5) {
 			op.Receipt = true
 			n := 6
 			if hostile {
@@ -130,9 +162,12 @@ func genAttach(seed uint64) lib.Case {
 	}
 
 	for _, op := range ops {
-		if op.Receipt {
+		switch {
+		case op.Trace:
+			applyTraces(b, op)
+		case op.Receipt:
 			applyReceipt(b, op)
-		} else {
+		default:
 			applyGroup(b, op)
 		}
 	}
@@ -143,6 +178,15 @@ func genAttach(seed uint64) lib.Case {
 	// direct oracle
 	var fails []string
 	fails = append(fails, cachesim.Problems([]cachesim.DBlock{final})...)
+	// trace actions: replaced, the last attachment wins (also on the hostile stream)
+	for _, t := range final.Txs {
+		if traced[t.Idx] && fmt.Sprint(t.Traces) != fmt.Sprint(lastTraces[t.Idx]) && !(len(t.Traces) == 0 && len(lastTraces[t.Idx]) == 0) {
+			fails = append(fails, fmt.Sprintf("tx %d: trace actions %v, last attached %v", t.Idx, t.Traces, lastTraces[t.Idx]))
+		}
+		if !traced[t.Idx] && len(t.Traces) > 0 {
+			fails = append(fails, fmt.Sprintf("tx %d: trace actions %v never attached", t.Idx, t.Traces))
+		}
+	}
 	if !hostile {
 		for _, t := range final.Txs {
 			for idx := range attached[t.Idx] {
